@@ -14,7 +14,8 @@ fn b64j(v: &Value) -> String {
 }
 
 const KINDS: &[&str] = &[
-    "arity-place", "name-type", "name-reserved", "shape", "collision", "digest-twice",
+    "arity-place", "name-type", "name-type-at-element", "name-reserved", "shape", "collision", "digest-twice",
+    "extra-unreferenced-name-type", "extra-unreferenced-reserved", "extra-unreferenced-shape",
     "sd-not-array-payload", "sd-not-array-value", "placeholder-extra-payload", "placeholder-extra-value", "sd-alg",
 ];
 
@@ -94,6 +95,13 @@ fn make_defect(ctx: &mut Ctx, rng: &mut Rng, ic: &IssuedCase, kind: &str, target
             let bad = rng.pick(&[json!(5), Value::Null, json!(["k"]), json!({"k": 1}), json!(true)]).clone();
             tree.set_disc(target, &b64j(&json!([salt, bad, v])));
         }
+        "name-type-at-element" => {
+            // three elements with a non-string name, embedded where an element disclosure belongs
+            if key.is_some() { return None; }
+            let bad = rng.pick(&[json!(5), Value::Null, json!(["k"]), json!({"k": 1}), json!(false), json!(0)]).clone();
+            tree.set_disc(target, &b64j(&json!([salt, bad, v])));
+        }
+        "extra-unreferenced-name-type" | "extra-unreferenced-reserved" | "extra-unreferenced-shape" => {}
         "name-reserved" => {
             key.as_ref()?;
             let bad = *rng.pick(&["_sd", "..."]);
@@ -174,7 +182,19 @@ fn make_defect(ctx: &mut Ctx, rng: &mut Rng, ic: &IssuedCase, kind: &str, target
         let d = f(&mut payload, rng)?;
         detail["surgery"] = d;
     }
-    let discs: Vec<String> = spec["discs"].as_array().cloned().unwrap_or_default().iter().map(|d| d["str"].as_str().unwrap_or("").to_string()).collect();
+    let mut discs: Vec<String> = spec["discs"].as_array().cloned().unwrap_or_default().iter().map(|d| d["str"].as_str().unwrap_or("").to_string()).collect();
+    // a malformed disclosure that no digest references, somewhere in the list
+    let extra: Option<Value> = match kind {
+        "extra-unreferenced-name-type" => Some(json!(["s", rng.pick(&[json!(5), Value::Null, json!([1]), json!({}), json!(true)]).clone(), 1])),
+        "extra-unreferenced-reserved" => Some(json!(["s", *rng.pick(&["_sd", "..."]), 1])),
+        "extra-unreferenced-shape" => Some(rng.pick(&[json!([]), json!(["s"]), json!(["s", "k", 1, 2]), json!({"a": 1}), json!("x"), json!(3)]).clone()),
+        _ => None,
+    };
+    if let Some(e) = extra {
+        let at = rng.below(discs.len() + 1);
+        detail["extra"] = e.clone();
+        discs.insert(at, b64j(&e));
+    }
     Some(Defective { payload, discs, detail })
 }
 
@@ -269,7 +289,7 @@ pub fn run(ctx: &mut Ctx, replay: Option<&Value>) {
         run_case(ctx, case, false);
         return;
     }
-    let n = ctx.cases.unwrap_or(if ctx.tier_thorough { 6_000 } else { 500 });
+    let n = ctx.count(800, 6_000);
     for i in 0..n {
         let mut rng = Rng::fork(ctx.seed, i);
         let case = gen_ref_case(&mut rng, ctx.tier_thorough, 0);
